@@ -30,7 +30,7 @@ ASSUMPTIONS = ["names and expressions are ASCII; names are over [A-Za-z0-9._+-] 
                "components have fewer than 4300 digits (CPython's int/str conversion limit)",
                "VersionCompare.stdCompare is entered with suffix=True only (compare/__call__ and its own recursive calls)"]
 
-WORKERS = 6
+WORKERS = 4
 MODEL_FLAGS = {"pinned": True} if os.environ.get("C10_MODEL") == "pinned" else {}     # development aid, see docs/notes/g10.md
 
 
@@ -108,6 +108,16 @@ def impl_match(case):
         res = "E:" + type(ex).__name__
     terms = [impl_cmp(v, tv, True) for _, tv in case["terms"]]
     return {"r": res, "terms": terms}
+
+
+def impl_legal(case):
+    """Eups.isLegalRelativeVersion: is the version argument a relational request?"""
+    e = bare_eups()
+    try:
+        r = e.isLegalRelativeVersion(case["expr"])
+    except Exception as ex:  # noqa
+        return {"r": "bad" if type(ex).__name__ == "EupsException" else "E:" + type(ex).__name__}
+    return {"r": "relational" if r is True else "plain" if r is False else "E:%r" % (r,)}
 
 
 _E = None
@@ -234,8 +244,6 @@ def impl_stack(case):
     res = {}
     try:
         for path in PATHS:
-            if path == "cache" and case.get("ties"):
-                continue          # the cache enumerates a stack's versions in dictionary order: not modelled for ties inside a stack
             q = common.in_child(_stack_query, case, root, stacks, path)
             if q[0] != "ok":
                 raise common.InfraError("querying the stacks (%s) failed: %r" % (path, q,))
@@ -251,7 +259,7 @@ def impl_small(jobs):
         if c["kind"] == "stack":
             out.append(impl_stack(c))
             continue
-        out.append(impl_match(c) if c["kind"] == "match" else impl_latest(c))
+        out.append(impl_match(c) if c["kind"] == "match" else impl_legal(c) if c["kind"] == "legal" else impl_latest(c))
     if _E is not None:
         common.rmtree(_E._c10root)
     return out
@@ -454,6 +462,8 @@ def eval_small(ctx, cases):
     for c in cases:
         if c["kind"] == "match":
             reqs.append({"m": "c10", "op": "match", "v": c["v"], "expr": c["expr"]})
+        elif c["kind"] == "legal":
+            reqs.append({"m": "c10", "op": "legal", "expr": c["expr"]})
         elif c["kind"] == "stack":
             reqs.append({"m": "c10", "op": "stacksboth", "stacks": c["stacks"], "expr": c["expr"], "minver": c.get("minver") or ""})
         else:
@@ -465,6 +475,18 @@ def eval_small(ctx, cases):
         inp = {k: v for k, v in c.items() if not k.startswith("_")}
         if c["kind"] == "stack":
             eval_stack(ctx, c, inp, io_, ans)
+        elif c["kind"] == "legal":
+            ctx.case(key=("g", c["expr"]), nontrivial=bool(c["expr"].strip()),
+                     sample={"input": inp, "impl": io_} if ctx.evaluations % 997 == 11 else None)
+            ctx.hist("legal/shape=%s" % c.get("shape", "corpus"))
+            ctx.hist("legal/outcome=" + io_["r"])
+            if io_["r"] != ans["r"]:
+                ctx.disagree("isLegalRelativeVersion", inp, io_["r"], ans["r"])
+            # oracle (ii), from the generator's description: a request with an explicit operator is a relational request,
+            # a bare name is not, and the single `=` followed by a blank is refused with the "did you mean ==" message
+            want = c.get("want")
+            if want is not None and io_["r"] != want:
+                ctx.fail("request_recognised", inp, io_["r"], ans["r"], note="expected %s for the shape %s" % (want, c.get("shape")))
         elif c["kind"] == "match":
             mo = ans["r"]
             ctx.case(key=("m", c["v"], c["expr"]), nontrivial=bool(c["terms"]),
@@ -524,6 +546,8 @@ def eval_stack(ctx, c, inp, io_, ans):
              sample={"input": inp, "impl": {k: {x: v[x] for x in ("branch", "latest", "latest_min", "matches", "preferred")}
                                             for k, v in io_.items()}} if ctx.evaluations % 997 == 3 else None)
     ctx.hist("stack/nstacks=%d" % len(c["stacks"]))
+    if c.get("ties"):
+        ctx.hist("stack/ties-inside-a-stack")
     if sorted(allv) != sorted(allv, key=lambda v: [int(t) if t.isdigit() else t for t in __import__("re").split(r"(\d+)", v)]):
         ctx.hist("stack/string-order-differs-from-numeric-order")
     for path, out in io_.items():
@@ -654,9 +678,9 @@ def gen_stacks(ctx, pool, n):
 # ---- generators -------------------------------------------------------------------------------------------
 
 SIZES = {   # name sets and case counts per tier; "search" is the budget of the hunt for a failing input after a correspondence break
-    "quick":    dict(g1404=300,  wide=330,  arb_sets=45,  match=2500,  latest=600,  stacks=150),
-    "search":   dict(g1404=1404, wide=700,  arb_sets=150, match=10000, latest=2000, stacks=450),
-    "thorough": dict(g1404=1404, wide=1600, arb_sets=600, match=40000, latest=8000, stacks=2500),
+    "quick":    dict(g1404=300,  wide=330,  arb_sets=45,  match=2500,  latest=600,  stacks=150,  legal=600),
+    "search":   dict(g1404=1404, wide=700,  arb_sets=150, match=10000, latest=2000, stacks=450,  legal=2000),
+    "thorough": dict(g1404=1404, wide=1600, arb_sets=600, match=40000, latest=8000, stacks=2500, legal=8000),
 }
 
 
@@ -705,6 +729,36 @@ def gen_small(ctx, pool, n_match, n_latest):
     return cases
 
 
+def gen_legal(ctx, pool, n):
+    """version arguments as `setup prod <arg>` / `setupRequired(prod <arg>)` receive them, with what they are by construction"""
+    rng = ctx.rng
+    names = [nme for nme, _ in pool] or ["1.0"]
+    ws = ["", " ", "  ", "\t"]
+    cases = []
+    for _ in range(n):
+        r = rng.random()
+        v = rng.choice(names)
+        if r < 0.45:
+            k = rng.choice([1, 1, 2, 3])
+            ops = [rng.choice(L.OPS + [None]) for _ in range(k)]
+            terms = [(rng.choice(ws) + o + rng.choice(ws) if o else "") + rng.choice(names) for o in ops]
+            text = rng.choice(ws) + rng.choice([" || ", "||", " or ", " && "]).join(terms) + rng.choice(ws)
+            cases.append({"kind": "legal", "expr": text, "shape": "chain/explicit" if any(ops) else "chain/bare",
+                          "want": "relational" if any(ops) else "plain"})
+        elif r < 0.6:
+            cases.append({"kind": "legal", "expr": v, "shape": "name", "want": "plain"})
+        elif r < 0.8:
+            text = rng.choice(ws) + "=" + rng.choice(ws[1:]) + v + rng.choice(["", " ", " || " + rng.choice(names)])
+            cases.append({"kind": "legal", "expr": text, "shape": "single-equals", "want": "bad"})
+        elif r < 0.9:
+            text = rng.choice(ws) + "=" + rng.choice(ws[1:]) + v + " || " + rng.choice(L.OPS) + " " + rng.choice(names)
+            cases.append({"kind": "legal", "expr": text, "shape": "single-equals-then-operator", "want": "relational"})
+        else:
+            text = rng.choice(["=" + v, "=", "= ", " =  ", "", " ", v + " = " + v, v + " =", "=\t" + v, "= =", "= = 1", "=" + v + " 2", "x= 1"])
+            cases.append({"kind": "legal", "expr": text, "shape": "odd", "want": None})
+    return cases
+
+
 # ---- entry points ------------------------------------------------------------------------------------------
 
 def corpus_cases():
@@ -748,13 +802,13 @@ def run(ctx, sz=None):
         names += [L.render(L.random_conventional(ctx.rng)) for _ in range(4)]
         eval_names(ctx, list(dict.fromkeys(names)), tag="arbitrary")
     if pool and not ctx.out_of_time():
-        eval_small(ctx, gen_small(ctx, pool, sz["match"], sz["latest"]))
+        eval_small(ctx, gen_small(ctx, pool, sz["match"], sz["latest"]) + gen_legal(ctx, pool, sz["legal"]))
     if pool and not ctx.out_of_time():
         eval_small(ctx, gen_stacks(ctx, pool, sz["stacks"]))
     h = ctx.histogram
     if not ctx.out_of_time():
-        for k in ("stack/branch=cache", "stack/branch=db", "stack/string-order-differs-from-numeric-order", "stack/minver:some",
-                  "stack/minver:none", "stack/oracle:latest_of_matches", "stack/oracle:match_iff_relation", "arbitrary/strict:U", "arbitrary/sort:<", "arbitrary/sort:M", "match/outcome=match", "match/outcome=nomatch",
+        for k in ("stack/branch=cache", "stack/branch=db", "stack/ties-inside-a-stack", "stack/string-order-differs-from-numeric-order", "stack/minver:some",
+                  "stack/minver:none", "stack/oracle:latest_of_matches", "stack/oracle:match_iff_relation", "arbitrary/strict:U", "arbitrary/sort:<", "arbitrary/sort:M", "match/outcome=match", "match/outcome=nomatch", "legal/outcome=relational", "legal/outcome=plain", "legal/outcome=bad",
                   "match/oracle:match_iff_relation", "wide/sort:=", "g1404/sort:<"):
             if not h.get(k):
                 raise common.InfraError("degenerate distribution: nothing counted under %r" % k)
